@@ -51,7 +51,7 @@ def import_closure(roots):
 
 
 # property theorems that live in a continuation file (the lemma files they rest on import Props/<pid>.lean)
-EXTRA_PROPS = {'C10': ['C10World']}
+EXTRA_PROPS = {'C10': ['C10World'], 'C04': ['C04Kernels'], 'C13': ['C13Kernels'], 'C17': ['C17Kernels']}
 
 
 def prop_modules(pid):
